@@ -164,6 +164,7 @@ package node
 //@   assumes[unfold] exprOK(b.Left) && exprOK(b.Right)
 //@ func (UnOp).byteCode [C05,C12] implements ByteCoder.byteCode
 //@   assumes[unfold] exprOK(u.Target) && (u.Op == "-" || u.Op == "#" || u.Op == "!" || u.Op == "~")
+//@   assumes[fold]   wfAST(BinOp{Op: "*", Left: Int(-1), Right: u.Target})   // negation is compiled as (-1) * target: a well-formed product of two expressions
 //@ func (Block).byteCode [C05,C12] implements ByteCoder.byteCode
 //@   assumes[unfold] forall k :: 0 <= k && k < len(b.Body) ==> wfAST(b.Body[k])
 //@   requires[sel01] srcsel <= 1
